@@ -349,3 +349,85 @@ func TestVerifC10Follower(t *testing.T) {
 	}
 	rep.Cases(rounds)
 }
+
+// TestVerifC17Leader: the API mapping of the two lookup answers on a node that IS the
+// leader but has applied only a prefix of its log (a node that was just restarted and
+// elected while it still replays): a session it has not seen yet is not reported gone.
+func TestVerifC17Leader(t *testing.T) {
+	rep := verifrep.Open()
+	defer rep.Close()
+	seed := verifrep.Seed()
+	rng := rand.New(rand.NewSource(seed))
+	rn, err := c04Raft()
+	if err != nil {
+		rep.Broken("raft: " + err.Error())
+		return
+	}
+	defer rn.Shutdown()
+	rounds := verifrep.Cases(20)
+	for r := 0; r < rounds; r++ {
+		srv := ircserver.NewIRCServer("robustirc.net", time.Now())
+		srv.Config.PostMessageCooloff = 0
+		h := NewHTTP(srv, rn, nil, nil, nil, "robustirc.net", "pw", "", "c17", true, 3)
+		ts := httptest.NewServer(http.HandlerFunc(h.DispatchPublic))
+		// the prefix of the log this leader has applied so far
+		applied := uint64(0)
+		live := map[uint64]string{}
+		gone := map[uint64]string{}
+		n := rng.Intn(12)
+		for k := 0; k < n; k++ {
+			applied += 1 + uint64(rng.Intn(3))
+			if len(live) > 0 && rng.Intn(3) == 0 {
+				for id, auth := range live {
+					srv.VerifApply(&robust.Message{Id: robust.Id{Id: applied}, Session: robust.Id{Id: id}, Type: robust.DeleteSession, Data: "bye", UnixNano: time.Now().UnixNano()})
+					delete(live, id)
+					gone[id] = auth
+					break
+				}
+				continue
+			}
+			auth := fmt.Sprintf("auth-%d-%d", r, applied)
+			srv.VerifApply(&robust.Message{Id: robust.Id{Id: applied}, Type: robust.CreateSession, Data: auth, UnixNano: time.Now().UnixNano()})
+			live[applied] = auth
+		}
+		post := func(id uint64, auth, method, suffix, body string) int {
+			req, _ := http.NewRequest(method, fmt.Sprintf("%s/robustirc/v1/0x%x%s", ts.URL, id, suffix), bytes.NewReader([]byte(body)))
+			req.Header.Set("X-Session-Auth", auth)
+			ctx, cancel := context.WithTimeout(context.Background(), 2*time.Second)
+			defer cancel()
+			resp, err := http.DefaultClient.Do(req.WithContext(ctx))
+			if err != nil {
+				return 0
+			}
+			resp.Body.Close()
+			return resp.StatusCode
+		}
+		routes := []struct{ method, suffix, body string }{
+			{"POST", "/message", `{"Data":"PING x","ClientMessageId":77}`},
+			{"DELETE", "", `{"Quitmessage":"x"}`},
+			{"GET", "/messages?lastseen=0.0", ""},
+		}
+		// ids this node has not seen yet: sessions that exist in the part of the log it still has to apply
+		for _, id := range []uint64{applied + 1, applied + 2 + uint64(rng.Intn(5)), applied + 100000} {
+			for _, rt := range routes {
+				code := post(id, "auth-of-a-session-created-later", rt.method, rt.suffix, rt.body)
+				if code == 404 {
+					rep.Violation("C17", "api:not-yet-seen-reported-gone:leader", fmt.Sprintf("%s %s for session id %d on a leader that has applied its log up to %d only (it is still replaying) answered 404: the client takes its live session for gone", rt.method, rt.suffix, id, applied),
+						map[string]interface{}{"seed": seed, "applied": applied, "id": id})
+				}
+				rep.Case(fmt.Sprintf("leader-lookup|not-yet-seen|%s|%d", rt.method, code))
+			}
+		}
+		// deleted sessions are gone for good
+		for id, auth := range gone {
+			if code := post(id, auth, "POST", "/message", `{"Data":"PING x","ClientMessageId":78}`); code != 404 {
+				rep.Violation("C17", "api:deleted-session-not-reported-gone:leader", fmt.Sprintf("POST for deleted session %d answered %d", id, code), map[string]interface{}{"seed": seed})
+			}
+			rep.Case("leader-lookup|deleted")
+		}
+		rep.Obs("leader-lookups.rounds", 1)
+		ts.CloseClientConnections()
+		ts.Close()
+	}
+	rep.Cases(rounds * 9)
+}
